@@ -144,6 +144,9 @@ def assigns_to_counts(
         raise exception.DataInvalid(
             "Lag times must be be strictly greater than 0. Got '%s'." %
             lag_time)
+    # -lag_time is used as a slice bound; it wraps around for unsigned
+    # fixed-width integers (numpy scalars are numbers.Integral, too)
+    lag_time = int(lag_time)
 
     # if it's 1d, later stuff will fail
     if len(assigns.shape) == 1:
@@ -156,7 +159,9 @@ def assigns_to_counts(
     assigns = np.array([a[np.where(a != -1)] for a in assigns], dtype='O')
 
     if max_n_states is None:
-        max_n_states = np.concatenate(assigns).max() + 1
+        # add in a Python integer: assignments may be stored in a narrow
+        # dtype (int8, uint8, ...) whose largest value is a state id
+        max_n_states = int(np.concatenate(assigns).max()) + 1
 
     transitions = [
         _transitions_helper(
@@ -210,13 +215,27 @@ def eigenspectrum(T, n_eigs=None, left=True, maxiter=100000, tol=1E-30):
     T = T.T if left else T
 
     # performance improvement for small arrays; also prevents erroring
-    # out when ndim - 2 <= n_eigs and T is sparse.
-    if T.shape[0] < 1000 and scipy.sparse.issparse(T):
+    # out when ndim - 2 <= n_eigs and T is sparse (ARPACK only delivers
+    # k < N - 1 eigenpairs, whatever the size of the matrix).
+    if scipy.sparse.issparse(T) and \
+            (T.shape[0] < 1000 or n_eigs >= T.shape[0] - 1):
         T = T.toarray()
 
     if scipy.sparse.issparse(T):
-        vals, vecs = scipy.sparse.linalg.eigs(
-            T.tocsr(), n_eigs, which="LR", maxiter=maxiter, tol=tol)
+        # fixed start vector: ARPACK's default one is drawn at random, which
+        # makes eigenvector signs and the last bits differ from call to call
+        v0 = np.random.RandomState(0).uniform(-1, 1, T.shape[0])
+        try:
+            vals, vecs = scipy.sparse.linalg.eigs(
+                T.tocsr(), n_eigs, which="LR", maxiter=maxiter, tol=tol,
+                v0=v0)
+        except scipy.sparse.linalg.ArpackNoConvergence:
+            # eigenvalues clustered near 1 (slowly mixing chains) can keep the
+            # Arnoldi iteration from converging; the dense solver always works
+            logger.warning(
+                "ARPACK did not converge; falling back to the dense "
+                "eigensolver for the %s x %s matrix.", T.shape[0], T.shape[1])
+            vals, vecs = scipy.linalg.eig(T.toarray())
     else:
         vals, vecs = scipy.linalg.eig(T)
 
